@@ -3,8 +3,9 @@
 (* xref-damaged files against the property C20 (module SeqScanRef; nothing  *)
 (* implementation-shaped is used).                                         *)
 (*   Docs (file named by IOEnv.DOCS), one line per generated file:          *)
-(*     [objs: <<[num, start, hdrEnd, end]>>]   ground truth, recorded while *)
-(*                                             writing / by byte search     *)
+(*     [objs: <<[num, start, hdrEnd, end, amb, lenEnd]>>]   ground truth,   *)
+(*        recorded while writing / by byte search; amb, lenEnd: see the     *)
+(*        rule on where a stream ends in SeqScanRef                         *)
 (*   Records, one line per observation of the real code:                    *)
 (*     [d, lo, hi, whole, res, mr, per]     whole: no byte of d is missing  *)
 (* An event stands for every crash point lo..hi of file d (the harness      *)
@@ -14,11 +15,10 @@
 (* written value (r = "v"), another value ("x"), an error ("e"), or was not *)
 (* tried ("-"); mr = what FileInfo.MakeReader + Get of every complete       *)
 (* object gave.  Stream bodies of the files are free of line-initial object *)
-(* headers and of EOL+"endstream" (a prefix ending inside such a body is a  *)
-(* well-formed shorter object for every reader that tolerates a wrong       *)
-(* /Length); where /Length may be an indirect object no body ends in a bare *)
-(* CR (CR + the Writer's LF reads as a CR LF marker once the length is      *)
-(* lost).                                                                   *)
+(* headers.  A body with a line starting with "endstream" is judged only    *)
+(* where its /Length can be known (SeqScanRef.Judged).  Where /Length may   *)
+(* be an indirect object no body ends in a bare CR (CR + the Writer's LF    *)
+(* reads as a CR LF marker once the length is lost).                        *)
 EXTENDS SeqScanRef, TraceLib
 
 Cases == Records
